@@ -342,14 +342,20 @@ def top_candidates(x, frozen):
         yield from shrink_candidates(x)
 
 
-def shrink(x, still_fails, budget=400, frozen=None):
+SHRINK_WALL_S = 45.0
+
+
+def shrink(x, still_fails, budget=400, frozen=None, wall_s=None):
+    """greedy structural shrinking, bounded in steps AND in wall time: a failing case whose every evaluation is slow (a change
+    that makes the pipeline crawl) must cost the check a minute, not hours -- the unshrunk input is a perfectly good replay"""
     steps = 0
     improved = True
-    while improved and steps < budget:
+    t_end = time.time() + (SHRINK_WALL_S if wall_s is None else wall_s)
+    while improved and steps < budget and time.time() < t_end:
         improved = False
         for c in top_candidates(x, frozen):
             steps += 1
-            if steps > budget:
+            if steps > budget or time.time() > t_end:
                 break
             try:
                 if still_fails(c):
@@ -526,7 +532,7 @@ def run_shard(pmod, tier, seed, shard, nshards, budget_s):
                 "input": surf.describe(xs), "original_input": surf.describe(x),
                 "impl": wire.jsonable(ii), "model": wire.jsonable(mm), "shard": shard,
             })
-            if len(st.violations) >= 8:
+            if len(st.violations) >= 8 or time.time() - t0 > 3 * budget_s + 120:
                 break
     finally:
         st.runner_samples = rn.samples
